@@ -18,15 +18,27 @@ type c06Cfg struct {
 	cmd        string // "" | ok-kill | ok-noeffect | fail | hang
 	react      string // die | ignore
 	source     string // stop | shutdown
+	manual     bool   // the process is disabled in the configuration and started by hand
+	ordered    bool   // ordered shutdown
 }
 
 func (c c06Cfg) id() string {
-	return fmt.Sprintf("c06-sig%d-po%v-to%d-cmd[%s]-%s-%s", c.sig, c.parentOnly, c.timeout, c.cmd, c.react, c.source)
+	s := fmt.Sprintf("c06-sig%d-po%v-to%d-cmd[%s]-%s-%s", c.sig, c.parentOnly, c.timeout, c.cmd, c.react, c.source)
+	if c.manual {
+		s += "-manual"
+	}
+	if c.ordered {
+		s += "-ordered"
+	}
+	return s
 }
 
 func c06Scenarios(tier string) []*Scenario {
 	var scs []*Scenario
-	sigs := []int{-1, 0, 1, 2, 9, 15, 31, 32}
+	sigs := []int{-1, 0, 1, 2, 9, 15, 31, 32, 99}
+	if tier == "thorough" {
+		sigs = append(sigs, 64, 65, 1000)
+	}
 	for _, source := range []string{"stop", "shutdown"} {
 		for _, react := range []string{"die", "ignore"} {
 			for _, to := range []int{0, 2} {
@@ -47,6 +59,19 @@ func c06Scenarios(tier string) []*Scenario {
 						scs = append(scs, c06Scenario(c06Cfg{sig: 0, parentOnly: po, timeout: to, cmd: cmd, react: react, source: source}))
 					}
 				}
+			}
+		}
+	}
+	// every way a process can have come to run and every shutdown order: configured or disabled and started
+	// by hand, default or ordered shutdown
+	for _, manual := range []bool{false, true} {
+		for _, ordered := range []bool{false, true} {
+			if !manual && !ordered {
+				continue
+			}
+			for _, react := range []string{"die", "ignore"} {
+				scs = append(scs, c06Scenario(c06Cfg{sig: 0, timeout: 2, react: react, source: "shutdown", manual: manual, ordered: ordered}))
+				scs = append(scs, c06Scenario(c06Cfg{sig: 0, timeout: 2, cmd: "fail", react: react, source: "shutdown", manual: manual, ordered: ordered}))
 			}
 		}
 	}
@@ -82,7 +107,11 @@ func c06Scenario(c c06Cfg) *Scenario {
 	if len(pc.Lines) == 4 {
 		pc.Lines = pc.Lines[:3]
 	}
+	if c.manual {
+		pc.Lines = append(pc.Lines, "disabled: true")
+	}
 	sc.YAML = projectYAML(nil, pc)
+	sc.Ordered = c.ordered
 	ps := &ProcScript{OnTerm: c.react}
 	if c.cmd == "ok-noeffect" {
 		// the target outlives a successful stop command: the scenario ends it itself afterwards
@@ -94,6 +123,13 @@ func c06Scenario(c c06Cfg) *Scenario {
 		sc.API = [][]APICall{{{Op: "stop", Name: "a", When: launched}}}
 	} else {
 		sc.API = [][]APICall{{{Op: "shutdown", When: launched}}}
+	}
+	if c.manual {
+		// a second, ordinary process keeps the project up; a is started through the API, then the shutdown comes
+		sc.YAML = projectYAML(nil, pc, PC{Name: "x"})
+		sc.Procs["x"] = &ProcScript{}
+		aUp := func(w *World) bool { return w.launches["a#0"] > 0 }
+		sc.API = [][]APICall{{{Op: "start", Name: "a", When: launched}, {Op: "shutdown", When: aUp}}}
 	}
 	if c.cmd == "ok-noeffect" {
 		// the natural exit may only happen after the stop was requested
@@ -112,7 +148,9 @@ func c06Check(w *World, c c06Cfg) []Violation {
 			vs = append(vs, viol("C06", "no-setpgid", "command of a launched without its own process group"))
 		}
 	}
-	req := findEvent(tr, 0, func(e Event) bool { return e.Kind == "api-call" })
+	req := findEvent(tr, 0, func(e Event) bool {
+		return e.Kind == "api-call" && (strings.HasPrefix(e.Data, "stop") || strings.HasPrefix(e.Data, "shutdown"))
+	})
 	if req < 0 {
 		return vs
 	}
